@@ -22,9 +22,86 @@ RULE = ("random screens (1-14 rows quick / 1-30 thorough, arity 1-3, small name/
         "operation every earlier view's selection vector and, at the end, every earlier view's attributes are re-read. The unique filter is also applied to the "
         "screen itself, and select_unique_zipped_numpy_arrays is run directly on random id columns (control sentinel -1, all-control columns, "
         "sentinel/maximum pairs that collide under mixed-radix packing, strided column slices) against the model's `uniq`. "
+        "Every property of the view's class is found by introspection and compared: per-experiment arrays (incl. single_treatment_effects) with the parent's "
+        "rows at the selection, derived scalars/sets (size, n_plates, unique_*, n_unique_*, treatment_arity, is_observed, *_space_size, plate_id, plate_name) with "
+        "their value recomputed from the parent's selected rows, mappings/control name with the parent's objects; 35% of the screens have replicated "
+        "monotherapy rows spread over plates (effects array non-None), with combination-only / monotherapy-only / one-replicate-missing selections. "
         "Non-trivial: tree with >= 3 operations incl. a nested subset or unique filter, evaluated without error on a screen of >= 3 rows.")
 
 ATTRS = ["plate_ids", "sample_ids", "treatment_ids", "sample_names", "treatment_names", "treatment_doses", "observations", "observation_mask"]
+
+
+# properties of a view whose value is derived from its rows (recomputed by the oracle from the parent's selected rows);
+# every OTHER property found by introspection on the view's class must be a per-experiment array (parent's rows at the
+# selection), the parent's object itself (mappings, control name), None where the parent's is None, or raise what the parent's raises
+DERIVED = ("size", "n_plates", "unique_plate_ids", "unique_sample_ids", "unique_treatments", "n_unique_samples", "n_unique_treatments",
+           "treatment_arity", "is_observed", "sample_space_size", "treatment_space_size", "plate_id", "plate_name")
+SHARED = ("treatment_mapping", "sample_mapping", "plate_mapping", "control_treatment_name")
+
+
+def prop_names(obj):
+    names = set()
+    for k in type(obj).__mro__:
+        for n, o in vars(k).items():
+            if isinstance(o, property):
+                names.add(n)
+    return sorted(names)
+
+
+def canon(x):
+    """canonical python value: arrays -> nested lists, floats -> bit patterns"""
+    if isinstance(x, np.ndarray):
+        return [canon(e) for e in x]
+    if isinstance(x, (float, np.floating)):
+        return ("f", S.bits(x))
+    if isinstance(x, np.generic):
+        return x.item()
+    if isinstance(x, (list, tuple)):
+        return [canon(e) for e in x]
+    return x
+
+
+def read_prop(obj, name):
+    try:
+        return ("ok", getattr(obj, name))
+    except Exception as e:      # noqa: BLE001
+        return ("raises", type(e).__name__)
+
+
+def ste_of_rows(sids, tids, obs):
+    """single_treatment_effects recomputed from the given rows alone (independent of batchie): None when a (sample, treatment)
+    of some row has no monotherapy row among them; 'ValueError' for arity < 2; else rows of floats"""
+    if not tids:
+        a = None
+    else:
+        a = len(tids[0])
+    if a is not None and a < 2:
+        return "ValueError"
+    mono = {}
+    for s_, row, o in zip(sids, tids, obs):
+        if sum(1 for t in row if t == -1) == len(row) - 1:
+            mono.setdefault((s_, max(row)), []).append(o)
+    out = []
+    for s_, row in zip(sids, tids):
+        r = []
+        for t in row:
+            if t == -1:
+                r.append(1.0)
+            elif (s_, t) in mono:
+                v = mono[(s_, t)]
+                r.append(sum(v) / len(v))
+            else:
+                return None
+        out.append(r)
+    return out
+
+
+def ste_close(a, b):
+    if a is None or b is None or isinstance(a, str) or isinstance(b, str):
+        return a == b
+    if len(a) != len(b):
+        return False
+    return all(len(x) == len(y) and all(abs(p - q) <= 1e-9 * max(1.0, abs(p), abs(q)) for p, q in zip(x, y)) for x, y in zip(a, b))
 
 
 class Absent(Exception):
@@ -120,6 +197,15 @@ class Eval:
         self.parent["observations"] = [S.bits(x) for x in s.observations]
         self.parent["plate_names"] = [str(x) for x in s.plate_names]
         self.n = n
+        self.pvals = {name: read_prop(s, name) for name in prop_names(s) if name != "plates"}
+        self.obs_f = [float(x) for x in s.observations]
+        # independent check of the parent's own single-treatment effects (tolerance: a mean is computed)
+        st, val = self.pvals.get("single_treatment_effects", ("ok", None))
+        mine = ste_of_rows(self.parent["sample_ids"], self.parent["treatment_ids"], self.obs_f)
+        got = val.tolist() if (st == "ok" and val is not None) else (None if st == "ok" else val)
+        if n and not ste_close(got, mine):
+            self.fail("the screen's single_treatment_effects differ from the means of its monotherapy rows", got, mine, signature="C14:ste:parent")
+        self.ste_kind = "none" if got is None else "raises" if isinstance(got, str) else "array"
 
     def fail(self, what, observed, required, signature=None):
         if self.res is not None:
@@ -179,16 +265,104 @@ class Eval:
         idx = [i for i, b in enumerate(sel) if b]
         if v.size != len(idx):
             self.fail("view.size is not the number of selected rows", v.size, len(idx))
-        for a in ATTRS:
-            got = np.asarray(getattr(v, a))
-            got = [S.bits(x) for x in got] if a == "observations" else got.tolist()
-            want = [self.parent[a][i] for i in idx]
-            if got != want:
-                self.fail("attribute of a view is not the parent's at the selected rows", {"attr": a, "got": got}, want,
-                          signature="C14:attr:" + a)
-                return
+        if not self.check_props(v, idx):
+            return
         if v.treatment_mapping is not self.screen.treatment_mapping and v.screen is self.screen:
             self.fail("view does not report the parent's mapping", "other object", "parent's")
+
+    def derived(self, name, idx):
+        """value of a derived property recomputed from the parent's rows at `idx`; ('raises', cls) where the view has to raise"""
+        P = self.parent
+        pids = [P["plate_ids"][i] for i in idx]
+        sids = [P["sample_ids"][i] for i in idx]
+        tids = [P["treatment_ids"][i] for i in idx]
+        if name == "size":
+            return ("ok", len(idx))
+        if name == "n_plates":
+            return ("ok", len(set(pids)))
+        if name == "unique_plate_ids":
+            return ("ok", sorted(set(pids)))
+        if name == "unique_sample_ids":
+            return ("ok", sorted(set(sids)))
+        if name == "unique_treatments":
+            return ("ok", sorted(set(t for r in tids for t in r) - {-1}))
+        if name == "n_unique_samples":
+            return ("ok", len(set(sids)))
+        if name == "n_unique_treatments":
+            return ("ok", len(set(t for r in tids for t in r) - {-1}))
+        if name == "treatment_arity":
+            return ("ok", self.raw["arity"])
+        if name == "is_observed":
+            return ("ok", all(P["observation_mask"][i] for i in idx))
+        if name == "sample_space_size":
+            return ("ok", len(self.screen.sample_mapping[0]))
+        if name == "treatment_space_size":
+            return ("ok", len(self.screen.treatment_mapping[0]))
+        if name == "plate_id":
+            return ("ok", pids[0]) if len(set(pids)) == 1 else ("raises", "ValueError")
+        if name == "plate_name":
+            return ("ok", P["plate_names"][idx[0]]) if len(set(pids)) == 1 else None      # only specified for single-plate views
+        return None
+
+    def check_props(self, v, idx):
+        """every property of the view's class, found by introspection"""
+        for name in prop_names(v):
+            st, val = read_prop(v, name)
+            if name in DERIVED:
+                want = self.derived(name, idx)
+                if want is None:
+                    continue
+                got = (st, canon(val) if st == "ok" else val)
+                if got != (want[0], canon(want[1]) if want[0] == "ok" else want[1]):
+                    self.fail("derived property of a view differs from its value on the parent's selected rows", {"property": name, "got": got},
+                              want, signature="C14:derived:" + name)
+                    return False
+                continue
+            if name in SHARED:
+                pst, pval = (("ok", self.screen.control_treatment_name) if name == "control_treatment_name" else self.pvals[name])
+                if st != "ok" or not (val is pval or canon(val) == canon(pval)):
+                    self.fail("view does not report the parent's " + name, (st, str(val)[:80]), "the parent's", signature="C14:shared:" + name)
+                    return False
+                continue
+            if name not in self.pvals:
+                if self.res is not None:
+                    self.res.count("unclassified-view-property." + name)
+                continue
+            pst, pval = self.pvals[name]
+            if pst == "raises":
+                if (st, val) != (pst, pval):
+                    self.fail("per-experiment attribute: the parent's raises, the view's does not", {"attr": name, "got": (st, str(val)[:80])},
+                              pval, signature="C14:attr:" + name)
+                    return False
+                continue
+            if pval is None:
+                if st != "ok" or val is not None:
+                    self.fail("per-experiment attribute is absent on the parent but not on the view", {"attr": name, "got": (st, str(val)[:80])},
+                              None, signature="C14:attr:" + name)
+                    return False
+                continue
+            if isinstance(pval, np.ndarray) and pval.ndim >= 1 and pval.shape[0] == self.n:
+                want = [canon(pval[i]) for i in idx]
+                got = canon(val) if (st == "ok" and isinstance(val, np.ndarray)) else (st, str(val)[:80])
+                if got != want:
+                    self.fail("attribute of a view is not the parent's at the selected rows", {"attr": name, "got": got}, want,
+                              signature="C14:attr:" + name)
+                    return False
+                if name == "single_treatment_effects" and self.res is not None:
+                    own = ste_of_rows([self.parent["sample_ids"][i] for i in idx], [self.parent["treatment_ids"][i] for i in idx],
+                                      [self.obs_f[i] for i in idx])
+                    if idx and not ste_close(own, [[x for x in r] for r in pval[idx].tolist()]):
+                        self.res.count("ste.view-where-recomputing-from-own-rows-differs")
+                continue
+            if self.res is not None:
+                self.res.count("unclassified-view-property." + name)
+        # plate_names is a plain attribute of the parent, read through the selection
+        got = [str(x) for x in v.screen.plate_names[v.selection_vector]]
+        if got != [self.parent["plate_names"][i] for i in idx]:
+            self.fail("attribute of a view is not the parent's at the selected rows", {"attr": "plate_names", "got": got},
+                      [self.parent["plate_names"][i] for i in idx], signature="C14:attr:plate_names")
+            return False
+        return True
 
     def expected(self, tree, kids):
         """set-algebra value computed from the children's *expected* selections (independent of numpy indexing)"""
@@ -431,6 +605,20 @@ def gen_tree(rng, raw, depth, sizes_of, allow_foreign=True):
     r = rng.random()
     if depth <= 0 or r < 0.22:
         k = rng.random()
+        if k < 0.12 and raw["arity"] >= 2 and n:
+            # combination-only / monotherapy-only / all-but-one-monotherapy-row selections
+            nctl = [sum(1 for c in range(raw["arity"]) if is_ctrl_cell(raw, r, c)) for r in range(n)]
+            kind = rng.choice(["combo", "mono", "drop-one-mono"])
+            if kind == "combo":
+                m = [x == 0 for x in nctl]
+            elif kind == "mono":
+                m = [x == raw["arity"] - 1 for x in nctl]
+            else:
+                mono = [r for r in range(n) if nctl[r] == raw["arity"] - 1]
+                m = [True] * n
+                if mono:
+                    m[rng.choice(mono)] = False
+            return ["S", m]
         if k < 0.5:
             m = gen_mask(rng, n)
             if rng.random() < 0.03:
@@ -476,7 +664,54 @@ def subtrees(tree):
     yield tree
 
 
+def is_ctrl_cell(raw, r, c):
+    return raw["tnames"][r][c] == raw["ctrl"] or raw["tdoses"][r][c] <= 0
+
+
+def gen_mono_screen(rng, n_max):
+    """screen whose single_treatment_effects is an array: every (sample, treatment) that occurs has monotherapy rows, usually
+    replicated with different observations and spread over different plates; plus combination rows and control-only rows.
+    With probability 0.25 one needed monotherapy row is left out (parent's effects None)."""
+    a = rng.choice([2, 2, 2, 3])
+    ctrl = rng.choice(["", "control", "dmso"])
+    drugs = [x for x in rng.sample(S.NAME_POOL, 4) if x != ctrl][:rng.randint(2, 3)]
+    doses = rng.sample([1.0, 2.5, 1e-310, 10.0], rng.randint(1, 2))
+    treats = [(d, x) for d in drugs for x in doses][:rng.randint(2, 4)]
+    samples = rng.sample(S.NAME_POOL, rng.randint(1, 2))
+    ctl = lambda: rng.choice([(ctrl, 0.0), (ctrl, 1.0), (rng.choice(drugs), 0.0), (rng.choice(drugs), -0.0)])
+    rows = []
+    for smp in samples:
+        for t in treats:
+            for _ in range(rng.choice([1, 2, 2, 3])):
+                cells = [ctl() for _ in range(a)]
+                cells[rng.randrange(a)] = t
+                rows.append((smp, cells))
+        for _ in range(rng.randint(1, 4)):
+            cells = [rng.choice(treats) for _ in range(a)]
+            if rng.random() < 0.3:
+                cells[rng.randrange(a)] = ctl()
+            rows.append((smp, cells))
+        if rng.random() < 0.5:
+            rows.append((smp, [ctl() for _ in range(a)]))
+    if rng.random() < 0.25:
+        mono = [i for i, (_, cells) in enumerate(rows) if sum(1 for c in cells if c[0] == ctrl or c[1] <= 0) == a - 1]
+        if mono:
+            del rows[rng.choice(mono)]
+    rng.shuffle(rows)
+    rows = rows[:max(n_max, 6)] if rng.random() < 0.5 else rows[:n_max + 10]
+    n = len(rows)
+    plates = rng.sample(S.NAME_POOL, rng.randint(2, 4))
+    pn = [rng.choice(plates) for _ in range(n)]
+    st = {q: rng.random() < 0.6 for q in plates}
+    ov = [0.0, 1.0, 0.5, 0.25, 0.75, 0.3333333333333333, 0.9, 0.1, 2.0, 0.7]
+    return dict(ctrl=ctrl, arity=a, tnames=[[c[0] for c in cells] for _, cells in rows], tdoses=[[c[1] for c in cells] for _, cells in rows],
+                snames=[smp for smp, _ in rows], pnames=pn, obs=[rng.choice(ov) for _ in range(n)],
+                mask=None if rng.random() < 0.2 else [st[q] for q in pn], tmap=None, smap=None)
+
+
 def gen_screen(rng, n_max):
+    if rng.random() < 0.35:
+        return gen_mono_screen(rng, n_max)
     names = rng.sample(S.NAME_POOL, rng.randint(2, 3))
     doses = rng.sample([0.0, 1.0, 2.5, 1e-310, -0.0], rng.randint(1, 3))
     raw = S.gen_raw(rng, n_max=n_max, names=names, doses=doses, n_samples=rng.randint(1, 2), n_plates=rng.randint(1, 4))
@@ -516,6 +751,7 @@ def run(ctx, res):
         res.evaluations += 1
         E, v, err = run_tree(raw, tree, res, case, lseed)
         res.count("root." + tree[0])
+        res.count("ste.parent-" + E.ste_kind)
         res.count("ops.%s" % ("1-2" if n_ops(tree) <= 2 else "3-6" if n_ops(tree) <= 6 else "7+"))
         res.count("result." + ("ok" if err is None else err))
         if err is None and n_ops(tree) >= 3 and has_nested(tree) and len(raw["snames"]) >= 3:
